@@ -75,9 +75,14 @@ fn drive_cmd(args: &[String]) -> i32 {
             continue;
         }
         let case: Value = serde_json::from_str(&line).expect("session json");
-        let rec = drive::run_session(&case);
-        out.write_all(serde_json::to_string(&rec).unwrap().as_bytes()).unwrap();
-        out.write_all(b"\n").unwrap();
+        for case in drive::expand_sweep(&case) {
+            let mut rec = drive::run_session(&case);
+            if !case["sweep"].is_null() || case["id"].as_str().map_or(false, |s| s.contains('#')) {
+                rec["case"] = case.clone();
+            }
+            out.write_all(serde_json::to_string(&rec).unwrap().as_bytes()).unwrap();
+            out.write_all(b"\n").unwrap();
+        }
     }
     0
 }
